@@ -31,14 +31,12 @@ flags.DEFINE_string("output_file", "-", "Output filename ('-' means stdout)")
 
 def main(argv):
     with util.file_printer(FLAGS.output_file) as print:
+        glyph_mappings = glyphmap.parse_csv(argv[1])
         sequences = sorted(
-            {
-                gm.codepoints
-                for gm in glyphmap.parse_csv(argv[1])
-                if len(gm.codepoints) > 1
-            }
+            {gm.codepoints for gm in glyph_mappings if len(gm.codepoints) > 1}
         )
-        print(features.generate_fea(sequences))
+        glyph_names = {gm.codepoints: gm.glyph_name for gm in glyph_mappings}
+        print(features.generate_fea(sequences, glyph_names=glyph_names))
 
 
 if __name__ == "__main__":
